@@ -86,7 +86,7 @@ alias honest_response_bound_LEps := Mps.ZK.honest_response_bound_LEps
 alias honest_response_bound_LPrimeEps := Mps.ZK.honest_response_bound_LPrimeEps
 alias honest_response_triangle := Mps.ZK.honest_response_triangle
 
-/-- accepted ⇒ in range, for every verifier that has a range check (zkdec and zkmul have none: `gen_dec`, `gen_mul`) -/
+/-- accepted ⇒ in range, for every verifier that has a range check (zkdec / zkmul have none in the paper either; their response is reduced: `plaintext_reduced`) -/
 theorem out_of_range_rejected (pre : List Item) (pub prf : Rec) :
     (Enc.verify pre pub prf = .ok true → isInIntervalLEps (prf.intV "Z1") = true) ∧
     (Logstar.verify pre pub prf = .ok true → isInIntervalLEps (prf.intV "Z1") = true) ∧
@@ -102,7 +102,15 @@ theorem out_of_range_rejected (pre : List Item) (pub prf : Rec) :
    affp_accept_range pre pub prf, encelg_accept_range pre pub prf, mulstar_accept_range pre pub prf,
    fac_accept_range pre pub prf⟩
 
-/-- zkdec / zkmul hand an unchecked response to `EncWithNonce`, which panics beyond `⌊N/2⌋` (finding) -/
+/-- zkdec / zkmul take their response into the plaintext space ±⌊N/2⌋ before it is encrypted (`SetModSymmetric`,
+    `gen_dec`, `gen_mul`): for every response and every modulus the encryption cannot panic, and the reduced value is
+    congruent to the response mod N (so the ciphertext, which depends on the plaintext mod N only, is the honest one) -/
+theorem plaintext_reduced (n : Nat) (z : Int) (nonce : Nat) (hn : 0 < n) :
+    (∃ c, encWithNonce n (symMod z n) nonce = .ok c) ∧ (symMod z n - z) % (n : Int) = 0 :=
+  ⟨encWithNonce_symMod_ok n z nonce hn, symMod_congr z n hn⟩
+
+/-- why the reduction is needed: `EncWithNonce` panics beyond `⌊N/2⌋` (zkdec / zkmul handed it the unreduced
+    response; repaired finding) -/
 theorem unchecked_response_panics (n : Nat) (m : Int) (nonce : Nat) (h : n / 2 < m.natAbs) :
     ∃ w, encWithNonce n m nonce = .error w := encWithNonce_panics n m nonce h
 
@@ -366,16 +374,18 @@ theorem gen_mod :
       [] ∧
     MpsGen.ZK.mod_isvalid =
       [ "p == nil => false",
-       "big.Jacobi(p.W, N) != -1 => false",
+       "p.W == nil => false",
+       "N.Bit(0) == 0 || big.Jacobi(p.W, N) != -1 => false",
        "!arith.IsValidBigModN(N, p.W) => false",
        "!arith.IsValidBigModN(N, r.X, r.Z) => false" ] ∧
     MpsGen.ZK.mod_verify =
-      [ "p == nil => false",
+      [ "!p.IsValid(public) => false",
        "n.Bit(0) == 0 || n.ProbablyPrime(20) => false",
        "big.Jacobi(p.W, n) != -1 => false",
        "!arith.IsValidBigModN(n, p.W) => false",
        "err != nil => false",
        "!verifications[i].(bool) => false",
+       "p.IsValid(public)",
        "n.ProbablyPrime(20)",
        "big.Jacobi(p.W, n)",
        "arith.IsValidBigModN(n, p.W)",
@@ -404,12 +414,14 @@ theorem gen_prm :
     MpsGen.ZK.prm_verify =
       [ "p == nil => false",
        "err := pedersen.ValidateParameters(public.Aux.N(), public.Aux.S(), public.Aux.T()); err != nil => false",
+       "!p.IsValid(public) => false",
        "err != nil => false",
        "!arith.IsValidBigModN(n, a, z) => false",
        "a.Cmp(one) == 0 => false",
        "lhs.Cmp(&rhs) != 0 => false",
        "!ok => false",
        "pedersen.ValidateParameters(public.Aux.N(), public.Aux.S(), public.Aux.T())",
+       "p.IsValid(public)",
        "challenge(hash, public, p.As)",
        "arith.IsValidBigModN(n, a, z)",
        "a.Cmp(one)",
@@ -439,6 +451,7 @@ theorem gen_fac :
       [ "<none>" ] ∧
     MpsGen.ZK.fac_verify =
       [ "p == nil => false",
+       "p.Sigma == nil || p.Z1 == nil || p.Z2 == nil || p.W1 == nil || p.W2 == nil || p.V == nil || p.Comm.P == nil || p.Comm.Q == nil || p.Comm.A == nil || p.Comm.B == nil || p.Comm.T == nil => false",
        "err != nil => false",
        "!public.Aux.Verify(p.Z1, p.W1, e, p.Comm.A, p.Comm.P) => false",
        "!public.Aux.Verify(p.Z2, p.W2, e, p.Comm.B, p.Comm.Q) => false",
@@ -487,6 +500,7 @@ theorem gen_enc :
       [ "Z1|IsInIntervalLEps" ] ∧
     MpsGen.ZK.enc_isvalid =
       [ "p == nil => false",
+       "p.Commitment == nil || p.Z1 == nil || p.Z2 == nil || p.Z3 == nil || p.S == nil || p.A == nil || p.C == nil => false",
        "!public.Prover.ValidateCiphertexts(p.A) => false",
        "!arith.IsValidNatModN(public.Prover.N(), p.Z2) => false" ] ∧
     MpsGen.ZK.enc_verify =
@@ -534,6 +548,7 @@ theorem gen_encelg :
       [ "Z1|IsInIntervalLEps" ] ∧
     MpsGen.ZK.encelg_isvalid =
       [ "p == nil => false",
+       "p.Commitment == nil || p.Z1 == nil || p.W == nil || p.Z2 == nil || p.Z3 == nil || p.S == nil || p.D == nil || p.Y == nil || p.Z == nil || p.T == nil => false",
        "!public.Prover.ValidateCiphertexts(p.D) => false",
        "p.W.IsZero() || p.Y.IsIdentity() || p.Z.IsIdentity() => false",
        "!arith.IsValidNatModN(public.Prover.N(), p.Z2) => false" ] ∧
@@ -605,6 +620,7 @@ theorem gen_affg :
        "Z2|IsInIntervalLPrimeEps" ] ∧
     MpsGen.ZK.affg_isvalid =
       [ "p == nil => false",
+       "p.Commitment == nil || p.Z1 == nil || p.Z2 == nil || p.Z3 == nil || p.Z4 == nil || p.W == nil || p.Wy == nil || p.A == nil || p.Bx == nil || p.By == nil || p.E == nil || p.S == nil || p.F == nil || p.T == nil => false",
        "!public.Verifier.ValidateCiphertexts(p.A) => false",
        "!public.Prover.ValidateCiphertexts(p.By) => false",
        "!arith.IsValidNatModN(public.Prover.N(), p.Wy) => false",
@@ -687,6 +703,7 @@ theorem gen_affp :
        "Z2|IsInIntervalLPrimeEps" ] ∧
     MpsGen.ZK.affp_isvalid =
       [ "p == nil => false",
+       "p.Commitment == nil || p.Z1 == nil || p.Z2 == nil || p.Z3 == nil || p.Z4 == nil || p.W == nil || p.Wx == nil || p.Wy == nil || p.A == nil || p.Bx == nil || p.By == nil || p.E == nil || p.S == nil || p.F == nil || p.T == nil => false",
        "!public.Verifier.ValidateCiphertexts(p.A) => false",
        "!public.Prover.ValidateCiphertexts(p.Bx, p.By) => false",
        "!arith.IsValidNatModN(public.Prover.N(), p.Wx, p.Wy) => false",
@@ -762,6 +779,7 @@ theorem gen_logstar :
       [ "Z1|IsInIntervalLEps" ] ∧
     MpsGen.ZK.logstar_isvalid =
       [ "p == nil => false",
+       "p.Commitment == nil || p.Z1 == nil || p.Z2 == nil || p.Z3 == nil || p.S == nil || p.A == nil || p.Y == nil || p.D == nil => false",
        "!public.Prover.ValidateCiphertexts(p.A) => false",
        "p.Y.IsIdentity() => false",
        "!arith.IsValidNatModN(public.Prover.N(), p.Z2) => false" ] ∧
@@ -815,6 +833,7 @@ theorem gen_elog :
       [] ∧
     MpsGen.ZK.elog_isvalid =
       [ "p == nil => false",
+       "p.Commitment == nil || p.Z == nil || p.U == nil || p.A == nil || p.N == nil || p.B == nil => false",
        "p.A.IsIdentity() || p.N.IsIdentity() || p.B.IsIdentity() => false",
        "p.Z.IsZero() || p.U.IsZero() => false" ] ∧
     MpsGen.ZK.elog_verify =
@@ -866,6 +885,7 @@ theorem gen_log :
       [] ∧
     MpsGen.ZK.log_isvalid =
       [ "p == nil => false",
+       "p.Commitment == nil || p.Z1 == nil || p.Z2 == nil || p.A == nil || p.B == nil || p.C == nil => false",
        "p.A.IsIdentity() || p.B.IsIdentity() || p.C.IsIdentity() => false",
        "p.Z1.IsZero() || p.Z2.IsZero() => false" ] ∧
     MpsGen.ZK.log_verify =
@@ -910,7 +930,9 @@ theorem gen_nth :
     MpsGen.ZK.nth_ranges =
       [] ∧
     MpsGen.ZK.nth_isvalid =
-      [ "!arith.IsValidNatModN(public.N.N(), p.Z) => false",
+      [ "p == nil => false",
+       "p.Z == nil || p.A == nil => false",
+       "!arith.IsValidNatModN(public.N.N(), p.Z) => false",
        "!arith.IsValidNatModN(public.N.ModulusSquared().Modulus, p.A) => false" ] ∧
     MpsGen.ZK.nth_verify =
       [ "!p.IsValid(public) => false",
@@ -945,6 +967,7 @@ theorem gen_dec :
       [] ∧
     MpsGen.ZK.dec_isvalid =
       [ "p == nil => false",
+       "p.Commitment == nil || p.Z1 == nil || p.Z2 == nil || p.W == nil || p.S == nil || p.T == nil || p.A == nil || p.Gamma == nil => false",
        "p.Gamma == nil || p.Gamma.IsZero() => false",
        "!public.Prover.ValidateCiphertexts(p.A) => false",
        "!arith.IsValidNatModN(public.Prover.N(), p.W) => false" ] ∧
@@ -957,7 +980,7 @@ theorem gen_dec :
        "p.IsValid(public)",
        "challenge(hash, p.group, public, p.Commitment)",
        "public.Aux.Verify(p.Z1, p.Z2, e, p.T, p.S)",
-       "public.Prover.EncWithNonce(p.Z1, p.W)",
+       "public.Prover.EncWithNonce(z1, p.W)",
        "public.C.Clone().Mul(public.Prover, e).Add(public.Prover, p.A)",
        "public.C.Clone().Mul(public.Prover, e)",
        "lhs.Equal(rhs)",
@@ -993,6 +1016,7 @@ theorem gen_mul :
       [] ∧
     MpsGen.ZK.mul_isvalid =
       [ "p == nil => false",
+       "p.Commitment == nil || p.Z == nil || p.U == nil || p.V == nil || p.A == nil || p.B == nil => false",
        "!arith.IsValidNatModN(public.Prover.N(), p.U, p.V) => false",
        "!public.Prover.ValidateCiphertexts(p.A, p.B) => false" ] ∧
     MpsGen.ZK.mul_verify =
@@ -1007,7 +1031,7 @@ theorem gen_mul :
        "public.C.Clone().Mul(prover, e).Add(prover, p.A)",
        "public.C.Clone().Mul(prover, e)",
        "lhs.Equal(rhs)",
-       "prover.EncWithNonce(p.Z, p.V)",
+       "prover.EncWithNonce(z, p.V)",
        "public.X.Clone().Mul(prover, e).Add(prover, p.B)",
        "public.X.Clone().Mul(prover, e)",
        "lhs.Equal(rhs)" ] ∧
@@ -1040,6 +1064,7 @@ theorem gen_mulstar :
       [ "Z1|IsInIntervalLEps" ] ∧
     MpsGen.ZK.mulstar_isvalid =
       [ "p == nil => false",
+       "p.Commitment == nil || p.Z1 == nil || p.Z2 == nil || p.W == nil || p.A == nil || p.Bx == nil || p.E == nil || p.S == nil => false",
        "!arith.IsValidNatModN(public.Verifier.N(), p.W) => false",
        "!public.Verifier.ValidateCiphertexts(p.A) => false",
        "p.Bx.IsIdentity() => false" ] ∧
@@ -1200,7 +1225,7 @@ theorem gen_paillierEncWithNonce : MpsGen.ZK.paillierEncWithNonce =
        "c.ModMul(c, rhoN, pk.nSquared.Modulus)" ] := by decide
 
 theorem gen_paillierValidateCiphertexts : MpsGen.ZK.paillierValidateCiphertexts =
-    [ "ct == nil => false",
+      [ "ct == nil || ct.c == nil => false",
        "lt != 1 => false",
        "ct.c.IsUnit(pk.nSquared.Modulus) != 1 => false" ] := by decide
 
